@@ -145,6 +145,14 @@ def check_stub(chk, case, text, ev_own, rec_values, tbl, annotated, flag, stats)
         chk.fail("stub-" + e.clause, dict(case, detail=e.detail, stub=text[:1500]))
         return
     dup = set(ev.duplicate_classes)
+    # names the import block binds from two different modules (`from shapes import Set` and `from typing import Set`): the
+    # later import shadows the earlier one (KF-C11-same-name-two-modules)
+    bound = {}
+    for n in ev.tree.body:
+        if isinstance(n, ast.ImportFrom):
+            for a in n.names:
+                bound.setdefault(a.asname or a.name, set()).add(n.module)
+    clash_names = {k for k, v in bound.items() if len(v) > 1}
     for qual, fn in ev.funcs.items():
         nodes = annotation_nodes(fn)
         for pos, (node, traced) in nodes.items():
@@ -166,6 +174,8 @@ def check_stub(chk, case, text, ev_own, rec_values, tbl, annotated, flag, stats)
             src = ast.unparse(node)
             mentions_dup = any(d in src for d in dup) or any(d in ast.dump(node) for d in dup)
             kf = "KF-C01-td-class-name-collision" if (dup and _reaches_dup(ev, node, dup)) else None
+            if kf is None and clash_names and _reaches_dup(ev, node, clash_names):
+                kf = "KF-C01-same-name-two-modules"
             try:
                 tree = ev.resolve(ev.annotation(node), tbl)
                 ty = tyconv.tree_to_ty(tree, tbl)
@@ -176,7 +186,7 @@ def check_stub(chk, case, text, ev_own, rec_values, tbl, annotated, flag, stats)
                 stats["unrepresentable"] = stats.get("unrepresentable", 0) + 1
                 continue
             except Exception as e:
-                chk.fail("annotation-unreadable", dict(case, position=[qual, pos], annotation=src, error=repr(e)[:300]))
+                chk.fail("annotation-unreadable", dict(case, position=[qual, pos], annotation=src, error=repr(e)[:300]), finding=kf)
                 continue
             stats["positions"] = stats.get("positions", 0) + 1
             if pos == "return":
